@@ -91,7 +91,7 @@ def check_doc(doc, lineno):
                 for p in ex._parts:
                     exp += list(p.orig_lines if prefix else p.exec_lines)
                     if want and p.want:
-                        exp += p.want.splitlines()
+                        exp += common.srclines(p.want)
                 if mode == 'none':
                     if shown != exp:
                         problems.append('format_src(prefix=%s, want=%s) does not reproduce the parts line for line' % (prefix, want))
@@ -109,7 +109,7 @@ def check_doc(doc, lineno):
                                 problems.append('line %r is numbered %s, its position is %d' % (l, m.group(1), start + p.line_offset + j))
                             k += 1
                         if want and p.want:
-                            k += len(p.want.splitlines())
+                            k += len(common.srclines(p.want))
     # numbers are positions in the doctest text itself
     dl = parser.DoctestParser()
     # re-parse of the displayed text
@@ -139,7 +139,7 @@ def check_doc(doc, lineno):
     except Exception as e:
         problems.append('displayed text does not parse again: %s' % type(e).__name__)
     # positions against the original docstring (doctest-relative numbers)
-    src_lines = doc.expandtabs().splitlines()
+    src_lines = common.srclines(doc.expandtabs())
     for p in ex._parts:
         for j, l in enumerate(p.orig_lines):
             pos = p.line_offset + j
@@ -241,7 +241,7 @@ def file_relative(ctx):
                 for ex in exs:
                     ctx.evaluations += 1
                     t = ex.format_src(linenos=True, colored=False, want=True, offset_linenos=True, prefix=True)
-                    nwant = sum(len((p.want or '').splitlines()) for p in ex._parts)
+                    nwant = sum(len(common.srclines(p.want or '')) for p in ex._parts)
                     bad = None
                     nsrc = 0
                     for line in t.split('\n'):
